@@ -44,6 +44,7 @@ CONSTANTS Workers,            \* worker slots
           MaxWrites,          \* write calls over the whole behaviour (bounds the product of the channels' states)
           MaxCloses,          \* channels closed by running workers over the whole behaviour
           Atomic,             \* see Next
+          Record,             \* keep the history variable (simulation, counterexample search); FALSE: exhaustive runs
           DumpAt,             \* history lengths at which MC wrappers dump the history (simulation)
           Dev_StaleAfterReap
 
@@ -96,7 +97,7 @@ Obs == [reg  |-> {[f |-> f, red |-> loop[f].red, name |-> loop[f].name, pid |-> 
         run  |-> {w \in Workers : pid[w] # 0 /\ alive[w]},
         nd   |-> Len(delivered)]
 
-Log(e) == hist' = Append(hist, e @@ [obs |-> Obs'])          \* must be the last conjunct of an action
+Log(e) == hist' = IF Record THEN Append(hist, e @@ [obs |-> Obs']) ELSE hist     \* last conjunct of every action
 
 -----------------------------------------------------------------------------------------------------
 Init ==
